@@ -93,9 +93,15 @@ HexBad ==
   /\ Chk("C35", "a-column-that-loads-saves-to-bytes-that-load-to-the-same-values", ~Prefix(E.o, "bad:"))
 HexAgg == E.ev = "hexagg"
 
-Other == E.ev \notin {"bloomvec", "bloomset", "chgrt", "idrt", "syncrt", "wire", "wirebad", "hexbad", "hexagg"}
+(* C33: a JSON value of JsonGen.tla piped through the CLI: import | load+save | export *)
+Cli ==
+  /\ E.ev = "cli"
+  /\ Chk("C33", "cli-import-and-export-succeed", E.res = "ok")
+  /\ Chk("C33", "exported-json-equals-imported-json-with-number-kinds", E.same)
 
-Step == l <= Len(Rec) /\ l' = l + 1 /\ (BloomVec \/ BloomSet \/ ChgRT \/ IdRT \/ SyncRT \/ WireAgg \/ WireBad \/ HexBad \/ HexAgg \/ Other)
+Other == E.ev \notin {"cli", "bloomvec", "bloomset", "chgrt", "idrt", "syncrt", "wire", "wirebad", "hexbad", "hexagg"}
+
+Step == l <= Len(Rec) /\ l' = l + 1 /\ (BloomVec \/ BloomSet \/ ChgRT \/ IdRT \/ SyncRT \/ WireAgg \/ WireBad \/ HexBad \/ HexAgg \/ Cli \/ Other)
 Init == l = 1
 Spec == Init /\ [][Step]_l
 
